@@ -3,6 +3,7 @@ from types import EllipsisType
 import equinox
 import jax
 import jax.numpy as jnp
+import numpy as np
 from jax import Array
 from jaxtyping import Bool, Inexact, Integer, PyTree
 
@@ -56,6 +57,9 @@ class IndexOperator(AbstractLinearOperator):
     ) -> None:
         if not isinstance(indices, tuple):
             indices = (indices,)
+        # index arrays given as lists or NumPy arrays are accepted by the indexing itself: normalise them, so
+        # that they are handled as JAX arrays everywhere (uniqueness inference, reduction rules)
+        indices = tuple(jnp.asarray(_) if isinstance(_, (list, np.ndarray)) else _ for _ in indices)
         self._check_indices(indices)
         self.indices = indices
         if all(
